@@ -177,3 +177,48 @@ Lemma C10_ident_refuted_witness : bool_boundary = false ->
 Proof. exact ident_refuted_witness. Qed.
 Lemma C10_ident_rule_full_when_fixed : bool_boundary = true -> null_boundary = true -> C10_ident_rule_full.
 Proof. exact ident_rule_full_when_guarded. Qed.
+
+(* ---------------------------------------------------------------------------------------------
+   More consequences at the token level. *)
+Require Import Blots.PrattStrip Blots.proofs.PrattStripProofs.
+
+(* Comments never change the parsed program: for every fuel and EVERY token stream (not only
+   renderings), removing all comment pairs and comment annotations — comment lines inside lists,
+   records and do-blocks, end-of-line comments of items and statements, at any depth — leaves the
+   outcome of pairs_to_expr unchanged (Ok tree / Err / panic).  Induction on fuel. *)
+Theorem C10_comments_irrelevant : forall fuel its,
+  parse_impl fuel (strip_items its) = parse_impl fuel its.
+Proof. exact (comments_irrelevant impl_table infix_map prefix_map). Qed.
+Check C10_comments_irrelevant : forall fuel its,
+  parse_impl fuel (strip_items its) = parse_impl fuel its.
+Print Assumptions C10_comments_irrelevant.
+
+(* The specification table is unambiguous: no token stream is a rendering of two different trees. *)
+Theorem C10_renderings_unambiguous : forall par1 wn1 par2 wn2 t1 t2,
+  wf t1 = true -> wf t2 = true ->
+  spec_render par1 wn1 t1 = spec_render par2 wn2 t2 -> t1 = t2.
+Proof. exact renderings_unambiguous. Qed.
+Check C10_renderings_unambiguous : forall par1 wn1 par2 wn2 t1 t2,
+  wf t1 = true -> wf t2 = true ->
+  spec_render par1 wn1 t1 = spec_render par2 wn2 t2 -> t1 = t2.
+Print Assumptions C10_renderings_unambiguous.
+
+(* Every tree the crate's parser builds, from any token stream, satisfies wf: the round-trip
+   theorems cover all outputs of the parser, and re-parsing the minimal / full rendering of an
+   output under spec_table gives the output back. *)
+Theorem C10_outputs_wf : forall its t, Items impl_table infix_map prefix_map its t -> wf t = true.
+Proof. exact impl_outputs_wf. Qed.
+Check C10_outputs_wf : forall its t, Items impl_table infix_map prefix_map its t -> wf t = true.
+Print Assumptions C10_outputs_wf.
+
+Theorem C10_reparse_of_output : forall its t, Items impl_table infix_map prefix_map its t ->
+  pratt_impl (flat_min t) = Ok (Some t) /\ pratt_impl (flat_full t) = Ok (Some t).
+Proof. exact reparse_of_output. Qed.
+Check C10_reparse_of_output : forall its t, Items impl_table infix_map prefix_map its t ->
+  pratt_impl (flat_min t) = Ok (Some t) /\ pratt_impl (flat_full t) = Ok (Some t).
+Print Assumptions C10_reparse_of_output.
+
+Example strip_example :
+  strip_items [IList [LCom "// c"; LItem [IIdent "a"] (Some "// e"); LCom "// d"; LItem [IIdent "b"] None]]
+  = [IList [LItem [IIdent "a"] None; LItem [IIdent "b"] None]].
+Proof. reflexivity. Qed.
